@@ -2,8 +2,8 @@
    Property theorems only; proofs in proofs/IterLogProof.v, OutputsProof.v.
    Genuine defect found while proving (fixed in /repo by d850e2a): a first answer containing an
    entry that is not an expected signal, followed by a shorter answer, indexed out of bounds. *)
-From DTR Require Import Prelude I64 Ast FramedMap Lexer Parser Bind Eval Stmt Iter WfSpec.
-From DTR.proofs Require Import EvalProof IterLogProof OutputsProof NoPanicProof ParserProof BindProof Chain.
+From DTR Require Import Prelude I64 Ast FramedMap Lexer Parser Bind Eval Stmt Iter Script Static WfSpec.
+From DTR.proofs Require Import EvalProof IterLogProof OutputsProof NoPanicProof ParserProof BindProof Chain DeterminismProof RunRefineE DeterminismProofE FaultTransparency.
 Local Open Scope nat_scope.
 
 (* one next(): if the driver returns an error from the call made for a row, that very error value is the item for exactly that row (see the IE_Driver case: D (log) (kind, inputs of this row) = DrvErr e); the other cases account for every call (C02) *)
@@ -165,8 +165,81 @@ Theorem C13_rows_before_a_fault_do_not_depend_on_it :
   exists calls : list call, i_log st' = i_log st ++ calls /\ trace DE D w_default (i_log st) items calls.
 Proof. exact collect_log. Qed.
 
+(* FAULT TRANSPARENCY for callers that continue: on a test that reads no device output (try_iter_static succeeds) and whose declared signals draw no random numbers, the runs against ANY two drivers agree item by item on everything that does not come from the device - rows have the same inputs, expected values and line, evaluation errors and the end stand at the same positions - and a device failure in one run stands against a row / evaluation error / device failure of the other, after which BOTH RUNS GO ON IN STEP *)
+Theorem C13_fault_transparency :
+  forall (G : gen) (tc : testcase) (DE1 DE2 : Type) (D1 : driver DE1) (D2 : driver DE2) 
+  (w1 w2 : bool) (fuel n : nat) (st0 st1 st2 : istate) (items_s : list (item_view N))
+  (end_s : istate),
+  try_iter_static tc = StaticOk st0 ->
+  virtuals_no_random tc ->
+  try_new DE1 D1 tc = NewOk DE1 st1 ->
+  try_new DE2 D2 tc = NewOk DE2 st2 ->
+  collect_e G N static_driver true tc fuel n st0 = (items_s, Some end_s) ->
+  no_unknown items_s ->
+  sim_items_2 (fst (collect_e G DE1 D1 w1 tc fuel n st1)) (fst (collect_e G DE2 D2 w2 tc fuel n st2)).
+Proof. exact fault_transparency. Qed.
+
+(* when neither run is cut short by the model, the two item lists have the same length and correspond position by position *)
+Theorem C13_fault_transparency_in_step :
+  forall (G : gen) (tc : testcase) (DE1 DE2 : Type) (D1 : driver DE1) (D2 : driver DE2) 
+  (w1 w2 : bool) (fuel n : nat) (st0 st1 st2 : istate) (items_s : list (item_view N))
+  (end_s : istate) (items1 : list (item_view DE1)) (end1 : istate) (items2 : list (item_view DE2))
+  (end2 : istate),
+  try_iter_static tc = StaticOk st0 ->
+  virtuals_no_random tc ->
+  try_new DE1 D1 tc = NewOk DE1 st1 ->
+  try_new DE2 D2 tc = NewOk DE2 st2 ->
+  collect_e G N static_driver true tc fuel n st0 = (items_s, Some end_s) ->
+  no_unknown items_s ->
+  collect_e G DE1 D1 w1 tc fuel n st1 = (items1, Some end1) ->
+  collect_e G DE2 D2 w2 tc fuel n st2 = (items2, Some end2) ->
+  Forall2 sim_view_2 items1 items2 /\ length items1 = length items2.
+Proof. exact fault_transparency_in_step. Qed.
+
+(* so a transient device failure costs exactly the failed rows and nothing else: every row (and evaluation error) of the faulty run is the row at the same position of a fault-free run *)
+Theorem C13_rows_after_a_fault_are_those_of_the_fault_free_run :
+  forall (G : gen) (tc : testcase) (DE1 DE2 : Type) (D1 : driver DE1) (D2 : driver DE2) 
+  (w1 w2 : bool) (fuel n : nat) (st0 st1 st2 : istate) (items_s : list (item_view N))
+  (end_s : istate) (items2 : list (item_view DE2)) (end2 : istate),
+  try_iter_static tc = StaticOk st0 ->
+  virtuals_no_random tc ->
+  try_new DE1 D1 tc = NewOk DE1 st1 ->
+  try_new DE2 D2 tc = NewOk DE2 st2 ->
+  collect_e G N static_driver true tc fuel n st0 = (items_s, Some end_s) ->
+  no_unknown items_s ->
+  collect_e G DE2 D2 w2 tc fuel n st2 = (items2, Some end2) ->
+  fault_free items2 ->
+  let items1 := fst (collect_e G DE1 D1 w1 tc fuel n st1) in
+  (forall (k : nat) (r : data_row),
+  nth_error items1 k = Some (VRow r) ->
+  exists r' : data_row, nth_error items2 k = Some (VRow r') /\ static_row r = static_row r') /\
+  (forall (k : nat) (x : xerr),
+  nth_error items1 k = Some (VErr (IE_Runtime (RT_Expr x))) ->
+  nth_error items2 k = Some (VErr (IE_Runtime (RT_Expr x)))) /\
+  (snd (collect_e G DE1 D1 w1 tc fuel n st1) <> None ->
+  length items1 = length items2 /\ Forall2 explained_by items1 items2).
+Proof. exact rows_after_a_fault_are_those_of_the_fault_free_run. Qed.
+
+(* the restriction on declared signals is necessary (closed counterexample: declare v = random(10)) *)
+Theorem C13_fault_transparency_needs_no_random :
+  ~
+  (forall (G : gen) (tc : testcase) (DE1 DE2 : Type) (D1 : driver DE1) (D2 : driver DE2)
+  (w1 w2 : bool) (fuel n : nat) (st0 st1 st2 : istate) (items_s : list (item_view N))
+  (end_s : istate),
+  try_iter_static tc = StaticOk st0 ->
+  try_new DE1 D1 tc = NewOk DE1 st1 ->
+  try_new DE2 D2 tc = NewOk DE2 st2 ->
+  collect_e G N static_driver true tc fuel n st0 = (items_s, Some end_s) ->
+  no_unknown items_s ->
+  sim_items_2 (fst (collect_e G DE1 D1 w1 tc fuel n st1)) (fst (collect_e G DE2 D2 w2 tc fuel n st2))).
+Proof. exact fault_transparency_needs_no_random. Qed.
+
+
 Check C13_layout_deviation_is_error.
 Print Assumptions C13_driver_error_reaches_caller.
 Print Assumptions C13_no_misattribution.
 Print Assumptions C13_layout_deviation_is_error.
 Print Assumptions C13_extract_never_panics.
+Print Assumptions C13_fault_transparency.
+Print Assumptions C13_rows_after_a_fault_are_those_of_the_fault_free_run.
+Print Assumptions C13_fault_transparency_needs_no_random.
